@@ -49,6 +49,7 @@ type world struct {
 	ctl   *controller.VerifController
 	curve *scriptCurve
 	kind  string
+	cmd   *cmdWorld // kind=cmd: the script directory behind the real CmdFan (cmdfan.go)
 }
 
 var curWorld *world
@@ -171,9 +172,15 @@ func (w *world) applyDev(a kv) {
 			}
 		}
 	}
+	if w.cmd != nil {
+		w.cmdApplyDev(a)
+	}
 }
 
 func (w *world) state() string {
+	if w.cmd != nil {
+		w.cmdPull()
+	}
 	last, ok := w.ctl.VerifLastSetPwm()
 	ls := "-"
 	if ok {
@@ -197,6 +204,9 @@ func (w *world) state() string {
 }
 
 func (w *world) takeLog() string {
+	if w.cmd != nil {
+		w.cmdPull()
+	}
 	l := w.dev.Log
 	w.dev.Log = nil
 	if len(l) == 0 {
@@ -261,6 +271,9 @@ func init() {
 				h.RpmMovingAvg = a.f64("avg", 0)
 			} else {
 				w.fan.SetRpmAvg(float64(a.int("rint", 0)))
+			}
+			if cf, ok := w.fan.(*fans.CmdFan); ok {
+				w.newCmdWorld(cf.Config.Cmd)
 			}
 			w.applyDev(a)
 			w.curve = &scriptCurve{id: "curve"}
